@@ -63,3 +63,81 @@ def _(self, vars, coeffs):
         emits(self, a - v >= 0, "CABSR_{}")
     ensures(result == 0.0 + sum((1 if coeffs is None or lp_name(v) not in coeffs else coeffs[lp_name(v)])
                                 * newvar_at("ABS_{}", lp_name(v)) for v in vars))
+
+
+# ----------------------------------------------------------------------------------------------
+# Level 1: the interface functions themselves (C05)
+
+def esc(s):
+    """escaped base name: the solver-unsafe characters are removed / replaced, at most 200 characters"""
+    return s.replace(".", "").replace("-", "m").replace("#", "__").replace(">", "")[:200]
+
+
+def uses(d, k):
+    """how many times base name k has been handed out so far"""
+    return d[k] if k in d else 0
+
+
+@contract("aldy.lpinterface.escape_name")
+def _(s, d):
+    types(s="str", d="Optional[DefaultDict[str, int, 'int']]")
+    returns("str")
+    requires(d is None or forall(lambda k=str: implies(k in d, d[k] >= 1)))
+    # C05 (names identify variables): first use keeps the escaped name, the n-th use gets the suffix _n,
+    # and the use counter of that base name - and only that one - is advanced
+    ensures(implies(d is None, result == esc(s)), label="no-table")
+    ensures(implies(d is not None and old(uses(d, esc(s))) == 0, result == esc(s)), label="first-use")
+    ensures(implies(d is not None and old(uses(d, esc(s))) >= 1,
+                    result == esc(s) + "_" + str(old(uses(d, esc(s))) + 1)), label="later-use")
+    ensures(implies(d is not None, uses(d, esc(s)) == old(uses(d, esc(s))) + 1), label="counter-advanced")
+    ensures(implies(d is not None, forall(lambda k=str: implies(k != esc(s), uses(d, k) == old(uses(d, k))))), label="other-counters-kept")
+    modifies(d)
+
+
+@contract("aldy.lpinterface.CBC.getValue", native=False)
+def _(self, var):
+    types(var="LinVar")
+    returns("Union[bool, int, float]")
+    zero_one = abs(lp_lb(var)) < 0.01 and abs(1 - lp_ub(var)) < 0.01
+    # C05: typed read-back - integer variables are read as the nearest integer (a value within solver
+    # tolerance of an integer reads as that integer), integer [0,1] variables as booleans, others unchanged
+    ensures(implies(lp_integer(var) and zero_one, typed(result, "bool") and result == (round(lp_solution(var)) > 0)), label="binary")
+    ensures(implies(lp_integer(var) and not zero_one, typed(result, "int") and result == round(lp_solution(var))), label="integer")
+    ensures(implies(not lp_integer(var), typed(result, "float") and result == lp_solution(var)), label="continuous")
+    modifies()
+
+
+@contract("aldy.lpinterface.CBC.is_binary", native=False)
+def _(self, v):
+    types(v="LinVar")
+    ensures(result == (lp_integer(v) and abs(lp_lb(v)) < 0.01 and abs(1 - lp_ub(v)) < 0.01))
+    modifies()
+
+
+@contract("aldy.lpinterface.CBC.solve", assumed=True, native=False)
+def _(self, init):
+    # ASSUMED solver contract (CBC / OR-Tools, DESIGN.md section 3): "optimal" means the variable values
+    # are a feasible point whose objective is minimal; aldy's objectives are sums of absolute errors and
+    # non-negative penalties, hence non-negative
+    returns("Tuple[str, float]")
+    may_raise(NoSolutionsError)
+    ensures(result[1] >= 0)
+
+
+@contract("aldy.lpinterface.CBC.variables", assumed=True, native=False)
+def _(self):
+    returns("List[LinVar]")
+    modifies()
+
+
+@contract("aldy.lpinterface.Gurobi.solutions", native=False, inline=["aldy.common.sorted_tuple"])
+def _(self, gap, best_obj, limit, iteration, init):
+    types(self="CBC", gap="float", best_obj="Optional[float]", limit="Optional[int]", iteration="int", init="Opaque[Init]")
+    returns("List[Tuple[str, float, Opaque[Names]]]")
+    requires(gap >= 0, best_obj is None or best_obj >= 0)
+    # C05: every yielded solution has status optimal ...
+    ensures(all_yields(lambda y: y[0] == "optimal"), label="optimal-status")
+    # ... and lies within the gap of the optimum: obj < (1 + gap) * best + solver precision, where best is the
+    # objective of the first solution of the enumeration (threaded through the recursion as best_obj)
+    ensures(implies(best_obj is not None, all_yields(lambda y: y[1] < (1 + gap) * best_obj + 0.00001)), label="within-gap")
+    ensures(all_yields(lambda y: y[1] >= 0), label="nonneg")
